@@ -71,7 +71,7 @@ def gen_ops_live(rnd):
         lambda: ["set_property %s v%d" % (rnd.choice(["p1", "p2"]), rnd.randint(0, 99))],
         lambda: ["get_property %s" % rnd.choice(["p1", "p2"])],
         lambda: ["select_schema %s" % rnd.choice(["luna_pinyin", "cangjie5"]), "get_schema", "get_status"],
-        lambda: ["set_input %s" % "".join(rnd.choice("abcdefghinouz") for _ in range(rnd.randint(1, 8))), "get_context"],
+        lambda: ["set_input %s" % "".join(rnd.choice("abcdefghinouz") for _ in range(rnd.randint(1, 8))).encode().hex(), "get_context"],
         lambda: ["get_input"], lambda: ["set_caret %d" % rnd.randint(0, 9), "get_input"],
         lambda: ["simulate %s" % rnd.choice(["ni{space}", "hao{Return}", "zhong{BackSpace}guo", "{Escape}", "a{Left}b"]), "get_context", "get_commit"],
     ]
